@@ -1,0 +1,18 @@
+//go:build verif
+
+package fsi18loader
+
+// Machine-checked contracts for /verif (gowp). Comment-only file: it adds no code.
+
+// C20: each translation file is read, flattened and handed to Set, or its error is returned
+//@ func Load$2 [C20]
+//@   layers contract trace
+//@   trace Filespace.ReadFile as READ bind rd
+//@   trace JSONToPlainStringMap as PARSE bind parsed
+//@   trace I18N.Set as SET
+//@   at_call Filespace.ReadFile requires $0 == subPath
+//@   at_call JSONToPlainStringMap requires $0 == rd.0
+//@   at_call I18N.Set requires $0 == parsed.0
+//@   trace_ensures result0 == nil : ^READ PARSE SET $
+//@   trace_ensures result0 != nil : !SET
+//@   ensures rd.1 != nil ==> result0 == rd.1
